@@ -230,6 +230,11 @@ func wprotLayers(tier string, prop string) []Layer {
 				vals = wprotOperands(tier)
 			}
 			debug.SetPanicOnFault(true)
+			// under the adversarial scratch pool: a buffer handed to the pool is poisoned at once, so an
+			// operand's own array that is (wrongly) put into the pool faults right there
+			prevPool, prevGet, prevPut := theAdvPool, decimal.VerifPoolGetFn, decimal.VerifPoolPutFn
+			installAdvPool(64)
+			defer func() { theAdvPool, decimal.VerifPoolGetFn, decimal.VerifPoolPutFn = prevPool, prevGet, prevPut }()
 			x := vals[u]
 			for yi := 0; yi < len(vals); yi += 1 {
 				if c.Done() {
